@@ -339,9 +339,37 @@ class Check:
         return 0
 
 
+def _kill_descendants(*a):
+    """On SIGTERM/SIGINT/SIGHUP: leave no TLC or driver process behind."""
+    import signal
+    kids = {}
+    for d in os.listdir("/proc"):
+        if d.isdigit():
+            try:
+                st = open("/proc/%s/stat" % d).read()
+                kids.setdefault(int(st[st.rindex(")") + 2:].split()[1]), []).append(int(d))
+            except (OSError, ValueError):
+                pass
+    todo, seen = [os.getpid()], []
+    while todo:
+        for c in kids.get(todo.pop(), []):
+            seen.append(c)
+            todo.append(c)
+    for c in seen:
+        try:
+            os.kill(c, signal.SIGKILL)
+        except OSError:
+            pass
+    if a:
+        os._exit(2)
+
+
 def main(argv):
     import argparse
     import importlib
+    import signal
+    for sg in (signal.SIGTERM, signal.SIGINT, signal.SIGHUP):
+        signal.signal(sg, _kill_descendants)
     ap = argparse.ArgumentParser()
     ap.add_argument("pid")
     ap.add_argument("--tier", default=os.environ.get("VERIF_TIER", "quick"), choices=["quick", "thorough"])
